@@ -235,6 +235,10 @@ static void mode_trace(void)
                                 fprintf(fo, "T %s %s %s\n", sym_name(se->entry), sym_name(disp_target_of(se->entry)), vcpu_names[vi]);
                                 for (size_t k = 0; k < tcap; k++) if (tset[k]) fprintf(fo, "A %llx\n", (unsigned long long) tset[k]);
                         }
+                        clog_on = 1;
+                        clog_title("single-step (trap flag) traces of the functions each dispatched entry binds under the named virtual CPUs; the distinct instruction addresses are later disassembled and classified by ISA extension");
+                        clog_event("%s bound to %s under %s: %llu single steps inside the library, %llu distinct instruction addresses", sym_name(S[ei].entry), tn_, vcpu_names[vi], (unsigned long long) tsteps, (unsigned long long) tn);
+                        clog_on = 0;
                         out_count("traced_runs", 1); out_count("trace_steps", tsteps); out_count("trace_distinct_instructions", tn);
                         feat(mix64(0x7ace, (uint64_t) (uintptr_t) target));
                 }
@@ -278,6 +282,9 @@ static void mode_observe(int thorough)
                 snprintf(cur_replay, sizeof cur_replay, "{\"engine\":\"dispatch\",\"config_bits\":\"%08x\"}", cfg_bits(c));
                 const char *gfam[400] = { 0 }; const char *gent[400] = { 0 };
                 uint64_t bindvec = 0;
+                static int nproc;
+                clog_on = (nproc++ == 7);       /* evidence: the eighth configuration of this worker, written out */
+                clog_title("virtual CPU %s (bits %08x): every dispatch slot re-armed, each entry called once, slot read back; instruction profile of the bound function compared with what this CPU can execute", cs, cfg_bits(c));
                 for (int ei = 0; ei < nS; ei++) {
                         const sentry_t *s = &S[ei];
                         /* AES entry points document "requires SSE4.1 and AESNI": not evaluated below that floor */
@@ -299,6 +306,7 @@ static void mode_observe(int thorough)
                         void *target = disp_target_of(s->entry);
                         const char *tn_ = sym_name(target), *en = sym_name(s->entry);
                         bindvec = mix64(bindvec, (uint64_t) (uintptr_t) target);
+                        clog_event("%s bound to %s", en, tn_);
                         if (isal_verif_vcpu.n_xgetbv_no_osxsave != x0) { snprintf(key, sizeof key, "xgetbv-without-osxsave %s", en); out_viol("C12", key, rb, "resolver of %s executed XGETBV although CPUID.1:ECX.OSXSAVE is 0 (it would raise #UD) | %s", en, cs); }
                         uint32_t need;
                         if (!req_of(tn_, &need)) { snprintf(key, sizeof key, "unknown-target %s", en); out_viol("C12", key, rb, "%s bound to %s, which no traced configuration ever bound (no instruction profile)", en, tn_); continue; }
@@ -333,6 +341,7 @@ static void mode_observe(int thorough)
                                 if (isal_verif_vcpu.n_cpuid != n0 && S[ei].kind > 2 && S[ei].kind != 12 && S[ei].kind != 13) { snprintf(key, sizeof key, "resolver-reran %s", sym_name(S[ei].entry)); out_viol("C12", key, rb, "a second call of %s queried CPUID again", sym_name(S[ei].entry)); }
                         }
                 }
+                clog_on = 0;
                 out_count("configurations", 1);
                 feat(mix64(0xc0f, bindvec));
                 feat(mix64(0xc0e, cfg_bits(c)));
